@@ -46,6 +46,36 @@ pub fn run_height(input: &Value) -> Value {
         let mut max = init;
         let mut obs = vec![];
         obs.push(json!({"after": "start", "height": bw.current_height().await, "expected_max": max}));
+        // interleaved form: a poll may be in flight while notifications arrive
+        let mut held = None;
+        for ev in input["events"].as_array().cloned().unwrap_or_default() {
+            match ev["op"].as_str().unwrap_or("") {
+                "poll_start" => {
+                    tokio::time::advance(Duration::from_secs(60)).await;
+                    settle().await;
+                    held = wait_for_call(&node, "getinfo", 2000).await;
+                    if held.is_none() {
+                        obs.push(json!({"after": "poll_start", "height": bw.current_height().await, "expected_max": max, "note": "no getinfo call after one poll interval"}));
+                    }
+                }
+                "notify" => {
+                    let h = ev["h"].as_u64().unwrap_or(0);
+                    bw.new_block(&BlockAdded { height: h as u32 }).await;
+                    max = max.max(h);
+                    obs.push(json!({"after": format!("block_added({})", h), "height": bw.current_height().await, "expected_max": max}));
+                }
+                "poll_answer" => {
+                    let h = ev["h"].as_u64().unwrap_or(0);
+                    if let Some(c) = held.take() {
+                        node.answer(c, getinfo(h)).await;
+                        for _ in 0..20 { settle().await; std::thread::sleep(Duration::from_micros(200)); }
+                        max = max.max(h);
+                        obs.push(json!({"after": format!("poll({})", h), "height": bw.current_height().await, "expected_max": max}));
+                    }
+                }
+                _ => {}
+            }
+        }
         for h in input["notifications"].as_array().cloned().unwrap_or_default() {
             let h = h.as_u64().unwrap();
             bw.new_block(&BlockAdded { height: h as u32 }).await;
